@@ -3,10 +3,12 @@ import Driver.Conn
 import Driver.Json
 import Driver.Txt
 import Driver.Accept
+import Driver.View
 
 def main (args : List String) : IO UInt32 := do
   match args with
   | "reach" :: rest => Driver.reachMain rest
+  | ["view"] => Driver.View.viewMain
   | ["accept"] => Driver.Accept.acceptMain
   | ["txtqr"] => Driver.Txt.txtMain
   | ["json"] => Driver.Json.jsonMain
